@@ -120,7 +120,7 @@ fn chk_try_send(rng: &mut Rng) -> R {
     };
     check_sender_state(&mut c, &q2, &st)
 }
-fn chk_try_recv(rng: &mut Rng, poll: bool) -> R {
+fn chk_try_recv(rng: &mut Rng) -> R {
     let mut c = gen_chan(rng, false);
     let Some(mut rx) = c.rx.take() else { return Ok(()) };
     let disconnected = rng.chance(1, 3);
@@ -128,20 +128,8 @@ fn chk_try_recv(rng: &mut Rng, poll: bool) -> R {
         c.txs.clear();
     }
     let q = c.q.clone();
-    let st = format!("{} on queue {q:?} disconnected {disconnected}", if poll { "poll_recv" } else { "try_recv" });
-    // normalise both APIs to Ok(v) | Err(Empty) | Err(Disconnected)
-    let step = |rx: &mut mpsc::Receiver<u32>| -> Result<u32, TryRecvError> {
-        if poll {
-            let mut cx = Context::from_waker(Waker::noop());
-            match rx.poll_recv(&mut cx) {
-                Poll::Ready(Some(v)) => Ok(v),
-                Poll::Ready(None) => Err(TryRecvError::Disconnected),
-                Poll::Pending => Err(TryRecvError::Empty),
-            }
-        } else {
-            rx.try_recv()
-        }
-    };
+    let st = format!("try_recv on queue {q:?} disconnected {disconnected}");
+    let step = |rx: &mut mpsc::Receiver<u32>| -> Result<u32, TryRecvError> { rx.try_recv() };
     let r = step(&mut rx);
     let q2: Vec<u32> = match r {
         Ok(v) => {
@@ -153,12 +141,12 @@ fn chk_try_recv(rng: &mut Rng, poll: bool) -> R {
         }
         Err(TryRecvError::Empty) => {
             hit("empty");
-            ensure!(q.is_empty() && !disconnected, "{st} = Empty/Pending");
+            ensure!(q.is_empty() && !disconnected, "{st} = Empty");
             q.clone()
         }
         Err(TryRecvError::Disconnected) => {
             hit("disconnected");
-            ensure!(q.is_empty() && disconnected, "{st} = Disconnected/Ready(None)");
+            ensure!(q.is_empty() && disconnected, "{st} = Disconnected");
             q.clone()
         }
     };
@@ -166,6 +154,52 @@ fn chk_try_recv(rng: &mut Rng, poll: bool) -> R {
     let mut rest = vec![];
     let end = loop {
         match step(&mut rx) {
+            Ok(v) => rest.push(v),
+            Err(e) => break e,
+        }
+    };
+    ensure!(rest == q2, "{st}: remaining queue {rest:?}, model {q2:?}");
+    ensure!((end == TryRecvError::Disconnected) == disconnected, "{st}: after draining {end:?}");
+    Ok(())
+}
+
+/// poll_recv with a no-op waker, outside any runtime (corrected contract of hosttcp_sync.rs)
+fn chk_poll_recv(rng: &mut Rng) -> R {
+    let mut c = gen_chan(rng, false);
+    let Some(mut rx) = c.rx.take() else { return Ok(()) };
+    let disconnected = rng.chance(1, 3);
+    if disconnected {
+        c.txs.clear();
+    }
+    let q = c.q.clone();
+    let st = format!("poll_recv on queue {q:?} disconnected {disconnected}");
+    let mut cx = Context::from_waker(Waker::noop());
+    let r = rx.poll_recv(&mut cx);
+    if q.is_empty() && !disconnected {
+        ensure!(r.is_pending(), "{st} = {r:?}, but (empty && !disconnected) ==> Pending");
+    }
+    let q2: Vec<u32> = match r {
+        Poll::Ready(Some(v)) => {
+            hit(if disconnected { "value-after-disconnect" } else { "value" });
+            let front = if mutant("fifo") { q.last() } else { q.first() };
+            ensure!(Some(&v) == front, "{st} = Ready(Some({v}))");
+            q[1..].to_vec()
+        }
+        Poll::Ready(None) => {
+            hit("ready-none");
+            ensure!(q.is_empty() && disconnected, "{st} = Ready(None)");
+            q.clone()
+        }
+        Poll::Pending => {
+            hit(if q.is_empty() { "pending-empty" } else { "pending-nonempty" });
+            q.clone() // any state; nothing changes
+        }
+    };
+    // final(self)@: queue as predicted, `disconnected` unchanged (observed with try_recv, which has no budget)
+    ensure!(rx.len() == q2.len(), "{st}: {} message(s) left, model {q2:?}", rx.len());
+    let mut rest = vec![];
+    let end = loop {
+        match rx.try_recv() {
             Ok(v) => rest.push(v),
             Err(e) => break e,
         }
@@ -203,20 +237,23 @@ pub fn run(cx: &mut Cx) {
             Ok(())
         });
     }
-    // ports_tokio.rs: `requires buffer > 0` only
-    cx.check("ports_tokio.rs::mpsc::channel (no panic for every buffer > 0)", |rng| {
-        let buffer = match rng.below(4) {
-            0 => 1 + rng.u64() as usize % (usize::MAX - 1), // anywhere in 1..usize::MAX
-            1 => MPSC_MAX_CAP + rng.below(3),
+    // ports_tokio.rs (corrected): `requires 0 < buffer <= usize::MAX >> 3`, no ensures: the claim is "does not panic"
+    cx.check("ports_tokio.rs::mpsc::channel", |rng| {
+        let buffer = match rng.below(5) {
+            0 => 1,
+            1 => MPSC_MAX_CAP - rng.below(3),
+            2 => 1 + rng.u64() as usize % MPSC_MAX_CAP,
             _ => rng.range(1, 1 << 20),
         };
         if let Some(msg) = panics(|| mpsc::channel::<u32>(buffer)) {
-            return Err(format!("channel({buffer}) satisfies `requires buffer > 0` but the real tokio panics: {msg:?} (usize::MAX >> 3 = {MPSC_MAX_CAP})"));
+            return Err(format!("channel({buffer}) satisfies `requires 0 < buffer <= usize::MAX >> 3` but the real tokio panics: {msg:?}"));
         }
         Ok(())
     });
-    cx.check_n("ports_tokio.rs::mpsc::channel (channel(0) panics)", 16, |_| {
+    cx.check_n("ports_tokio.rs::mpsc::channel (requires is tight: buffer 0 and buffer > usize::MAX >> 3 panic)", 64, |rng| {
         ensure!(panics(|| mpsc::channel::<u32>(0)).is_some(), "channel(0) does not panic");
+        let big = MPSC_MAX_CAP + 1 + rng.u64() as usize % (usize::MAX - MPSC_MAX_CAP);
+        ensure!(panics(|| mpsc::channel::<u32>(big)).is_some(), "channel({big}) does not panic");
         Ok(())
     });
     // ------------------------------------------------------------------ bounded send side
@@ -252,36 +289,79 @@ pub fn run(cx: &mut Cx) {
     });
     // ------------------------------------------------------------------ bounded receive side
     for name in ["hosttcp_sync.rs::MpscReceiver::try_recv", "udp_mpsc.rs::mpsc::Receiver::try_recv"] {
-        cx.want(&["value", "value-after-disconnect", "empty", "disconnected"]).check(name, |rng| chk_try_recv(rng, false));
+        cx.want(&["value", "value-after-disconnect", "empty", "disconnected"]).check(name, chk_try_recv);
     }
-    cx.want(&["value", "value-after-disconnect", "empty", "disconnected"]).check("hosttcp_sync.rs::MpscReceiver::poll_recv (outside a runtime: unconstrained budget)", |rng| chk_try_recv(rng, true));
+    cx.want(&["value", "value-after-disconnect", "pending-empty", "ready-none"]).check("hosttcp_sync.rs::MpscReceiver::poll_recv (outside a runtime: unconstrained budget)", chk_poll_recv);
+    cx.want(&["empty", "nonempty"]).check("hosttcp_sync.rs::MpscReceiver::{is_empty, len}", |rng| {
+        let mut c = gen_chan(rng, false);
+        let Some(rx) = c.rx.take() else { return Ok(()) };
+        if rng.chance(1, 3) {
+            c.txs.clear(); // disconnected: the queued messages stay
+        }
+        hit(if c.q.is_empty() { "empty" } else { "nonempty" });
+        ensure!(rx.len() == c.q.len(), "len() = {}, model queue {:?}", rx.len(), c.q);
+        ensure!(rx.is_empty() == c.q.is_empty(), "is_empty() = {}, model queue {:?}", rx.is_empty(), c.q);
+        Ok(())
+    });
     // The same contract inside a tokio task: poll_recv takes part in tokio's cooperative scheduling budget
     // (128 operations per task poll); once it is used up poll_recv answers Pending whatever the queue holds.
     {
         let rt = tokio::runtime::Builder::new_current_thread().build().unwrap();
-        cx.check_n("hosttcp_sync.rs::MpscReceiver::poll_recv (inside a tokio task: cooperative budget)", 64, |rng| {
-            let n = rng.range(1, 300);
+        // Corrected contract: Ready(Some(v)) only for the front of a non-empty queue (which it pops); Ready(None) only
+        // if empty and disconnected; Pending leaves the channel untouched and may come in ANY state (budget);
+        // empty && !disconnected ==> Pending.
+        cx.want(&["pending-nonempty", "pending-empty", "ready-none"]).check_n("hosttcp_sync.rs::MpscReceiver::poll_recv (inside a tokio task: cooperative budget)", 128, |rng| {
+            let n = rng.range(0, 400);
+            let disconnect = rng.chance(1, 3);
             rt.block_on(async {
                 tokio::spawn(async move {
                     let (tx, mut rx) = mpsc::channel::<u32>(512);
                     for i in 0..n {
                         tx.try_send(i as u32).map_err(|_| "generator: try_send failed".to_string())?;
                     }
+                    let mut tx = Some(tx);
+                    if disconnect {
+                        tx = None;
+                    }
+                    let (mut i, mut polls) = (0usize, 0usize);
                     std::future::poll_fn(move |cx| {
-                        let _keep = &tx; // not disconnected
-                        for i in 0..n {
+                        let _keep = &tx;
+                        polls += 1;
+                        if polls > 1000 {
+                            return Poll::Ready(Err(format!("no progress after 1000 task polls ({i} of {n} received)")));
+                        }
+                        loop {
+                            let before = rx.len(); // model queue = messages i..n
+                            if before != n - i {
+                                return Poll::Ready(Err(format!("queue length {before}, model {}", n - i)));
+                            }
                             match rx.poll_recv(cx) {
-                                Poll::Ready(Some(v)) if v == i as u32 => {}
-                                Poll::Ready(o) => return Poll::Ready(Err(format!("poll_recv #{i} = Ready({o:?})"))),
+                                Poll::Ready(Some(v)) => {
+                                    if before == 0 || v != i as u32 || rx.len() != before - 1 {
+                                        return Poll::Ready(Err(format!("poll_recv = Ready(Some({v})) on a queue of {before} whose front is {i}; {} left", rx.len())));
+                                    }
+                                    i += 1;
+                                }
+                                Poll::Ready(None) => {
+                                    hit("ready-none");
+                                    return Poll::Ready(if before == 0 && disconnect { Ok(()) } else { Err(format!("poll_recv = Ready(None) on a queue of {before}, disconnected {disconnect}")) });
+                                }
                                 Poll::Pending => {
-                                    return Poll::Ready(Err(format!(
-                                        "poll_recv = Pending with {} message(s) queued (after {i} receives in this task poll); the stub says Pending ==> queue.len() == 0",
-                                        rx.len()
-                                    )))
+                                    if rx.len() != before {
+                                        return Poll::Ready(Err(format!("poll_recv = Pending changed the queue: {before} -> {}", rx.len())));
+                                    }
+                                    if before == 0 && !disconnect {
+                                        hit("pending-empty");
+                                        return Poll::Ready(Ok(())); // the terminal state of a connected channel
+                                    }
+                                    // Pending although a message / the end of the stream is available: the budget.
+                                    hit(if before > 0 { "pending-nonempty" } else { "pending-before-none" });
+                                    cx.waker().wake_by_ref();
+                                    return Poll::Pending; // next task poll: fresh budget
                                 }
                             }
+                            // (empty && !disconnected) ==> Pending is enforced by the two Ready arms above
                         }
-                        Poll::Ready(Ok(()))
                     })
                     .await
                 })
@@ -311,7 +391,7 @@ pub fn run(cx: &mut Cx) {
         });
     }
     // ------------------------------------------------------------------ oneshot
-    for name in ["hosttcp_sync.rs::OneshotSender::send", "barriers_tokio.rs::oneshot::channel + oneshot::Sender::send"] {
+    for name in ["hosttcp_sync.rs::OneshotSender::{is_closed, send}", "barriers_tokio.rs::oneshot::channel + oneshot::Sender::send"] {
         cx.want(&["ok", "err"]).check(name, |rng| {
             let (tx, rx) = oneshot::channel::<u32>();
             let (tx_other, mut rx_other) = oneshot::channel::<u32>(); // os_fresh: an unrelated id
@@ -328,6 +408,8 @@ pub fn run(cx: &mut Cx) {
                 }
                 _ => false,
             };
+            // hosttcp_sync.rs::OneshotSender::is_closed: b == receiver_dropped()
+            ensure!(tx.is_closed() == gone, "is_closed() = {} with receiver gone={gone}", tx.is_closed());
             let r = tx.send(v);
             hit(if r.is_err() { "err" } else { "ok" });
             ensure!(r.is_err() == gone, "send with receiver gone={gone} returned {r:?}");
